@@ -85,7 +85,13 @@ def initWorld (stores : List Json) : World :=
     | _ => (0, 0, "", ""))
   { hosts := fun h => { store := (ents.filter (fun e => e.1 = h)).map (fun e => e.2) } }
 
-def c07Step (s : DSt) (j : Json) : DSt × Json :=
+/-- rebuild `hosts` as a flat table (the model's `setHost` nests one closure per update) -/
+def flatten (n : Nat) (w : World) : World :=
+  let tbl : Array Host := ((List.range (n + 2)).map (fun h => w.hosts h)).toArray
+  { w with hosts := fun k => tbl.getD k {} }
+
+def c07Step (s0 : DSt) (j : Json) : DSt × Json :=
+  let s : DSt := { s0 with w := flatten s0.n s0.w }
   let old := s.w.log.length
   match getStr j "op" with
   | "init" =>
